@@ -14,21 +14,22 @@ C = dict(
         dict(module="CatalogWatch", cfg="CatalogWatch_MC.cfg", tiers=["thorough"], workers=8),
         dict(module="CatalogWatch", cfg="CatalogWatch_MC2.cfg", workers=8),
         dict(module="CatalogWatch", cfg="CatalogWatch_MC2s.cfg", tiers=["thorough"], workers=8),
+        dict(module="CatalogWatch", cfg="CatalogWatch_MC2i.cfg", tiers=["thorough"], workers=8),
     ],
     plan_sources=[
         dict(name="w2", module="CatalogWatch", cfg="CatalogWatch_Plan1w2.cfg", workers=4, cap={"quick": 90, "thorough": 1500}),
         dict(name="w3", module="CatalogWatch", cfg="CatalogWatch_Plan1w3.cfg", workers=4, cap={"thorough": 2500}, tiers=["thorough"]),
-        dict(name="t2", module="CatalogWatch", cfg="CatalogWatch_Plan2t.cfg", workers=4, cap={"thorough": 800}, tiers=["thorough"]),
-        dict(name="idle", module="CatalogWatch", cfg="CatalogWatch_PlanIdle.cfg", workers=4, cap={"thorough": 800}, tiers=["thorough"]),
-        dict(name="t2live", module="CatalogWatch", cfg="CatalogWatch_Plan2tLive.cfg", workers=4, cap={"quick": 14, "thorough": 800}),
-        dict(name="idlelive", module="CatalogWatch", cfg="CatalogWatch_PlanIdleLive.cfg", workers=4, cap={"quick": 14, "thorough": 504}),
+        dict(name="t2", module="CatalogWatch", cfg="CatalogWatch_Plan2t.cfg", workers=4, cap={"thorough": 300}, tiers=["thorough"]),
+        dict(name="idle", module="CatalogWatch", cfg="CatalogWatch_PlanIdle.cfg", workers=4, cap={"thorough": 300}, tiers=["thorough"]),
+        dict(name="t2live", module="CatalogWatch", cfg="CatalogWatch_Plan2tLive.cfg", workers=4, cap={"quick": 14, "thorough": 400}),
+        dict(name="idlelive", module="CatalogWatch", cfg="CatalogWatch_PlanIdleLive.cfg", workers=4, cap={"quick": 14, "thorough": 300}),
         dict(name="s2", module="CatalogWatch", cfg="CatalogWatch_Plan2sw2.cfg", workers=4, cap={"quick": 30}, tiers=["quick"], params=TWO_DB),
         dict(name="s2w3", module="CatalogWatch", cfg="CatalogWatch_Plan2s.cfg", workers=4, cap={"thorough": 1000}, tiers=["thorough"],
              params=TWO_DB),
         dict(name="sim", module="CatalogWatch", cfg="CatalogWatch_PlanSim.cfg", simulate={"quick": 40, "thorough": 1500},
              depth=14, cap={"quick": 30, "thorough": 1200}),
-        dict(name="sim2t", module="CatalogWatch", cfg="CatalogWatch_PlanSim2t.cfg", simulate={"quick": 30, "thorough": 800},
-             depth=13, cap={"quick": 20, "thorough": 600}),
+        dict(name="sim2t", module="CatalogWatch", cfg="CatalogWatch_PlanSim2t.cfg", simulate={"quick": 30, "thorough": 500},
+             depth=13, cap={"quick": 20, "thorough": 300}),
     ],
     directed="plans/C13.jsonl",
     trace=("CatalogWatch_Trace", "CatalogWatch_Trace.cfg"),
